@@ -602,6 +602,7 @@ func run(c *core.Ctx) {
 		bound = 3
 	}
 	log.SetOutput(io.Discard)
+	heteroRun(c)
 	var cs Case
 	seenW := map[uint64]struct{}{}
 	// owned: the exploration itself hands every case to exactly one worker (ExploreSharded); otherwise every
@@ -668,6 +669,9 @@ func run(c *core.Ctx) {
 }
 
 func replay(sub string, raw json.RawMessage) (string, bool) {
+	if sub == "hetero" {
+		return heteroReplay(raw)
+	}
 	var cs Case
 	if err := json.Unmarshal(raw, &cs); err != nil {
 		return err.Error(), false
